@@ -76,8 +76,13 @@ func execExtract(ts []string) string {
 	}
 	sortRequests(reqs)
 	fc := byte(3)
-	if target >= 6 {
+	switch {
+	case target >= 6:
 		fc = 4
+	case target < 2:
+		fc = 1
+	case target < 4:
+		fc = 2
 	}
 	tcp := target%2 == 0
 	parts := make([]string, len(reqs))
@@ -87,13 +92,25 @@ func execExtract(ts []string) string {
 		if trunc >= 0 && trunc < q {
 			n = trunc
 		}
-		data := make([]byte, 0, 2*n)
-		for k := 0; k < n; k++ {
-			v := memReg(seed, r.ServerAddress, r.UnitID, int(r.StartAddress)+k)
-			data = append(data, byte(v>>8), byte(v))
+		var pdu []byte
+		if target < 4 {
+			// coils / discrete inputs: n bits packed least significant bit first
+			data := make([]byte, (n+7)/8)
+			for k := 0; k < n; k++ {
+				if (memReg(seed, r.ServerAddress, r.UnitID, int(r.StartAddress)+k)/4)%2 == 1 {
+					data[k/8] |= 1 << uint(k%8)
+				}
+			}
+			pdu = append([]byte{fc, byte(len(data))}, data...)
+		} else {
+			data := make([]byte, 0, 2*n)
+			for k := 0; k < n; k++ {
+				v := memReg(seed, r.ServerAddress, r.UnitID, int(r.StartAddress)+k)
+				data = append(data, byte(v>>8), byte(v))
+			}
+			// the conforming device's reply, built by the harness (independent of the library's encoder)
+			pdu = append([]byte{fc, byte(2 * n)}, data...)
 		}
-		// the conforming device's reply, built by the harness (independent of the library's encoder)
-		pdu := append([]byte{fc, byte(2 * n)}, data...)
 		var frame []byte
 		if tcp {
 			rb := r.Bytes()
@@ -104,14 +121,9 @@ func execExtract(ts []string) string {
 		status := ""
 		var resp packet.Response
 		var perr error
-		switch target {
-		case 4:
+		if tcp {
 			resp, perr = packet.ParseTCPResponse(frame)
-		case 5:
-			resp, perr = packet.ParseRTUResponseWithCRC(frame)
-		case 6:
-			resp, perr = packet.ParseTCPResponse(frame)
-		default:
+		} else {
 			resp, perr = packet.ParseRTUResponseWithCRC(frame)
 		}
 		if perr != nil {
